@@ -37,6 +37,8 @@ from apischema import (
 from apischema import cache as ap_cache
 from apischema.conversions import Conversion, reset_deserializers, reset_serializer
 from apischema.fields import with_fields_set
+from apischema.metadata import flatten
+from apischema.typing import Annotated
 from apischema.json_schema import JsonSchemaVersion
 from apischema.objects import ObjectField, set_object_fields
 from apischema.serialization import PassThroughOptions
@@ -254,6 +256,46 @@ class U:
     ids: Tuple[uuid.UUID, ...] = ()
 
 
+@dataclass
+class RawInit:
+    """hand-written __init__ with the generated signature: still a 'raw' dataclass for
+    apischema, so override_dataclass_constructors bypasses it (observable through y)"""
+
+    x: int
+    y: int = 0
+
+    def __init__(self, x: int, y: int = 0):
+        self.x = x
+        self.y = y + 100
+
+
+@dataclass
+class FLInner:
+    i1: int = 0
+    i2: str = ""
+
+
+@dataclass
+class FL:
+    a: int = 0
+    inner: FLInner = field(default_factory=FLInner, metadata=flatten)
+
+
+@dataclass
+class LCat:
+    kind: Literal["lcat"] = "lcat"
+    n: int = 0
+
+
+@dataclass
+class LDog:
+    kind: Literal["ldog"] = "ldog"
+    m: int = 0
+
+
+LPet = Annotated[Union[LCat, LDog], discriminator("kind")]
+
+
 class Color(Enum):
     RED = "red"
     BLUE = "blue"
@@ -273,7 +315,7 @@ TYPES: Dict[str, Any] = {
     "P": P, "Q": Q, "C": C, "N": N, "Op1": Op1, "Op1Sub": Op1Sub, "Op2": Op2, "Op3": Op3, "H": H, "H3": H3,
     "SOF": SOF, "SOD": SOD, "HS": HS, "TN": TN, "TwoTN": TwoTN, "Animal": Animal, "Cat": Cat, "Zoo": Zoo,
     "AL": AL, "OR": OR, "V1": V1, "V1Sub": V1Sub, "DR": DR, "S1": S1, "S1Sub": S1Sub, "FS": FS, "Rec": Rec,
-    "U": U, "L": L, "ListP": List[P], "ListInt": List[int], "DictStrInt": Dict[str, int], "PosInt": PosInt,
+    "U": U, "L": L, "RawInit": RawInit, "FL": FL, "FLInner": FLInner, "LPet": LPet, "ListP": List[P], "ListInt": List[int], "DictStrInt": Dict[str, int], "PosInt": PosInt,
     "UUID": uuid.UUID, "OptP": Optional[P], "ListOp1": List[Op1], "ListAnimal": List[Animal],
     "UnionIS": UnionIS, "UnionSI": UnionSI, "Any": Any,
 }
@@ -638,6 +680,45 @@ def _():
     set_object_fields(SOD, None)
 
 
+FLINNER_FIELDS_1 = (ObjectField("i1", int, required=False, default=0),
+                    ObjectField("i3", int, required=False, default=3))
+SOD_FIELDS_REC = (ObjectField("a", int, required=False, default=1),
+                  ObjectField("child", Optional[SOD], required=False, default=None))
+REC_FIELDS_FLAT = (ObjectField("v", int, required=False, default=0),)
+LCAT_FIELDS = (ObjectField("kind", Literal["lcat", "lkitty"], required=False, default="lcat"),
+               ObjectField("n", int, required=False, default=0))
+
+
+@cfg("set_object_fields.FLInner.1", "fields", "flat")
+def _():
+    set_object_fields(FLInner, FLINNER_FIELDS_1)
+
+
+@cfg("set_object_fields.FLInner.none", "fields", "flat")
+def _():
+    set_object_fields(FLInner, None)
+
+
+@cfg("set_object_fields.SOD.rec", "fields")
+def _():
+    set_object_fields(SOD, SOD_FIELDS_REC)
+
+
+@cfg("set_object_fields.Rec.flat", "fields", "rec")
+def _():
+    set_object_fields(Rec, REC_FIELDS_FLAT)
+
+
+@cfg("set_object_fields.Rec.none", "fields", "rec")
+def _():
+    set_object_fields(Rec, None)
+
+
+@cfg("set_object_fields.LCat.kitty", "fields", "lpet", "disc")
+def _():
+    set_object_fields(LCat, LCAT_FIELDS)
+
+
 # -- type names
 @cfg("type_name.TN.str", "typename", "schema")
 def _():
@@ -719,6 +800,21 @@ def _():
 @cfg("alias.P.dash", "alias", "schema")
 def _():
     alias(_dash)(P)
+
+
+@cfg("alias.FLInner.upper", "alias", "schema", "flat")
+def _():
+    alias(_upper)(FLInner)
+
+
+@cfg("alias.V1.upper", "alias", "validator")
+def _():
+    alias(_upper)(V1)
+
+
+@cfg("alias.LCat.upper", "alias", "disc", "lpet")
+def _():
+    alias(_upper)(LCat)
 
 
 # -- ordering
@@ -922,6 +1018,8 @@ _des("OptP", "OptP", {"n": 3}, "schemareg", "alias")
 _des("Q.missing", "Q", {"s": "x"}, "err_missing_property", "errors", "alias")
 _des("Q.ok", "Q", {"req": 1}, "ctor", "alias")
 _des("Q.ok2", "Q", {"req": 1, "s": "t"}, "ctor")
+_des("RawInit", "RawInit", {"x": 1}, "ctor")
+_des("RawInit.xy", "RawInit", {"x": 1, "y": 2}, "ctor")
 _des("C.ok", "C", {"a": 5, "b": 1.5, "s": "abc", "l": [1, 2], "d": {"k": 1}}, "errors")
 _des("C.min", "C", {"a": -5}, "err_minimum", "errors")
 _des("C.max", "C", {"a": 15}, "err_maximum", "errors")
@@ -987,6 +1085,14 @@ _des("Rec", "Rec", {"v": 1, "nxt": {"v": 2, "p": {"n": 1, "zz": 1}}}, "addprops"
 _des("Rec.camel", "Rec", {"v": 1, "p": {"nameX": "q"}}, "alias")
 _des("U.str", "U", {"id": "00000000-0000-0000-0000-000000000002"}, "pass_d")
 _des("ListInt.coerce", "ListInt", ["1", 2], "coerce")
+_des("FL.lower", "FL", {"a": 1, "i1": 2, "i2": "x"}, "flat", "alias", "fields")
+_des("FL.upper", "FL", {"a": 1, "I1": 2}, "flat", "alias")
+_des("FL.i3", "FL", {"i3": 5}, "flat", "fields")
+_des("LPet.cat", "LPet", {"kind": "lcat", "n": 1}, "lpet", "disc")
+_des("LPet.kitty", "LPet", {"kind": "lkitty", "n": 1}, "lpet", "disc")
+_des("LPet.upper", "LPet", {"KIND": "lcat", "N": 1}, "lpet", "disc", "alias")
+_des("SOD.child", "SOD", {"a": 1, "child": {"a": 2, "child": None}}, "fields")
+_des("Rec.deep", "Rec", {"v": 1, "nxt": {"v": 2, "nxt": {"v": 3}}}, "rec", "fields")
 _des("UnionIS", "UnionIS", "1", "known8")
 _des("UnionSI", "UnionSI", "1", "known8")
 EXCLUDED_FROM_GENERATION.update({"des.UnionIS", "des.UnionSI"})
@@ -1081,6 +1187,10 @@ _ser("Rec", "Rec", lambda: Rec(1, Rec(2, None, P(3)), None), "alias", "exclude")
 _ser("U", "U", lambda: U(uuid.UUID(int=3), (uuid.UUID(int=4),)), "pass_s")
 _ser("UUID", "UUID", lambda: uuid.UUID(int=9), "pass_s")
 _ser("N", "N", lambda: N(), "schemareg")
+_ser("FL", "FL", lambda: FL(1, FLInner(2, "x")), "flat", "alias", "fields")
+_ser("LPet.cat", "LPet", lambda: LCat("lcat", 1), "lpet", "disc", "alias")
+_ser("Rec.deep", "Rec", lambda: Rec(1, Rec(2, Rec(3))), "rec", "fields")
+_ser("SOD.plain", "SOD", lambda: SOD(4, "q", 1.5), "fields")
 
 for _t, _tags in [
     ("P", ("alias", "addprops", "schemareg", "typename")), ("Q", ("alias",)), ("C", ()), ("N", ("schemareg",)),
@@ -1088,7 +1198,7 @@ for _t, _tags in [
     ("SOD", ("fields",)), ("HS", ("fields",)), ("TwoTN", ("typename", "schemareg")), ("Animal", ("disc", "typename")),
     ("Zoo", ("disc", "typename")), ("AL", ("alias",)), ("OR", ("order",)), ("DR", ("depreq",)),
     ("S1", ("serialized", "order")), ("S1Sub", ("serialized",)), ("Rec", ("alias", "addprops")), ("U", ()),
-    ("PosInt", ("schemareg",)),
+    ("PosInt", ("schemareg",)), ("FL", ("flat", "alias", "fields")), ("LPet", ("lpet", "disc")),
 ]:
     _schemas(_t, *_tags)
 
